@@ -77,6 +77,7 @@ def run():
     ck.cov['rule'] = ('programs: one worst-case-length encoding in all 384 slots for 12 instruction kinds (extreme and random operands), all-ones ma/mx with maximal dataset offset, random programs; '
                       'each on 4 engines, 2 and 2048 iterations, over a scratchpad between PROT_NONE pages and a dataset whose extent ends at a PROT_NONE page; code generation of the same programs '
                       '(v1/v2 x soft/hard AES x light/full) with the SuperscalarHash area compared before/after; public API with guarded buffers. Non-trivial = distinct program / codegen case')
+    ck.cov['rule'] += '; plus: code budget over all 256x8x8x256 instruction word classes, dataset initialisation ending at the last item under guard pages, VMs outliving their cache (same struct address, new memory), set_cache / set_dataset on VMs of the other memory mode'
     ck.sample(([l for l in lines if l.startswith('{"e":"codegen"')] or [''])[0])
     ck.sample({k: (v if len(str(v)) < 160 else str(v)[:160]) for k, v in runs[0].items()})
     ck.assumptions += ['memory safety is observed through guard pages and write-set equality, not proved; reads that stay inside another mapped buffer of the library cannot fault',
